@@ -371,3 +371,115 @@ func RaiseReturned(p *core.Prog, r *core.Report) {
 		r.Und("RAISE-RETURNED", "main|Raise", "-", "no ctx.Raise call found in cmd/gts")
 	}
 }
+
+// Key12 decides KEY-12 (HASH-REWINDABLE) on (*ioDelegate).TryCache: the input
+// is hashed by reading it to the end and is then rewound for the command to
+// read. Hashing is therefore only ever started on a file that can be rewound:
+// the temporary copy, or a file a Seek on which has just succeeded. A named
+// pipe given as the input (`gts cmd <(producer)`, a FIFO) is consumed by the
+// hashing and cannot be rewound: the cached run fails with "illegal seek" -
+// or, were the error ignored, would process an empty input - where --no-cache
+// streams the same input without trouble.
+func Key12(p *core.Prog, r *core.Report) {
+	r.Rule("KEY-12", "in TryCache every path to the hashing copy io.Copy(h, d.infile) has either replaced d.infile by the temporary copy or taken the true branch of a seekability probe on it (a function of package main that returns whether a Seek on its *os.File argument succeeded): an input that cannot be rewound is never consumed by the hashing", 1)
+	info := p.Info(core.PkgMain)
+	fd := p.FuncDecl(core.PkgMain, "ioDelegate.TryCache")
+	fn := "main.ioDelegate.TryCache"
+	if fd == nil || fd.Body == nil {
+		r.Und("KEY-12", fn+"|anchor", "-", "anchor-unresolved")
+		return
+	}
+	d, h := recvObj(info, fd), paramObj(info, fd, 0)
+	// seekability probes: func(f *os.File) bool { _, err := f.Seek(..); return err == nil }
+	probes := map[*types.Func]bool{}
+	for _, cand := range p.FuncDecls(core.PkgMain) {
+		if cand.Body == nil || cand.Recv != nil || cand.Type.Params.NumFields() != 1 || cand.Type.Results == nil || len(cand.Type.Results.List) != 1 {
+			continue
+		}
+		if types.TypeString(info.TypeOf(cand.Type.Results.List[0].Type), nil) != "bool" || len(cand.Type.Params.List[0].Names) != 1 {
+			continue
+		}
+		param := info.Defs[cand.Type.Params.List[0].Names[0]]
+		var errObj types.Object
+		for _, c := range core.Calls(cand.Body) {
+			if core.FuncID(core.Callee(info, c)) == "os.File.Seek" && core.ObjOf(info, methodRecv(c)) == param {
+				for o, as := range core.Assigns(info, cand.Body) {
+					for _, a := range as {
+						if a.Call == c && a.Idx == 1 {
+							errObj = o
+						}
+					}
+				}
+			}
+		}
+		if errObj == nil {
+			continue
+		}
+		okRet := true
+		for _, rs := range core.Returns(cand.Body) {
+			be, isB := ast.Unparen(rs.Results[0]).(*ast.BinaryExpr)
+			if !isB || be.Op != token.EQL || core.ObjOf(info, be.X) != errObj || !core.IsNil(info, be.Y) {
+				okRet = false
+			}
+		}
+		if okRet {
+			if f, ok := info.Defs[cand.Name].(*types.Func); ok {
+				probes[f] = true
+			}
+		}
+	}
+	var copyIn *ast.CallExpr
+	for _, c := range core.Calls(fd.Body) {
+		if core.IsCallTo(info, c, "io.Copy") && len(c.Args) == 2 && core.ObjOf(info, c.Args[0]) == h && fieldSel(info, c.Args[1], d, "infile") {
+			copyIn = c
+		}
+	}
+	if copyIn == nil {
+		r.Und("KEY-12", fn+"|hash", p.Pos(fd.Pos()), "no io.Copy(h, d.infile) found")
+		return
+	}
+	fl := core.NewFlow(info, fd.Body)
+	violated := false
+	// state: 0 = d.infile may be a file that cannot be rewound, 1 = it can
+	core.Scan(fl, fl.Entry(), 0, core.Stepper[int]{
+		Node: func(s int, n ast.Node) (int, bool) {
+			for _, c := range core.NodeCalls(n) {
+				if c == copyIn {
+					if s == 0 {
+						violated = true
+					}
+					return s, true
+				}
+			}
+			if as, ok := n.(*ast.AssignStmt); ok && len(as.Lhs) == 1 && len(as.Rhs) == 1 && fieldSel(info, as.Lhs[0], d, "infile") {
+				// the temporary copy: a file made by TempFile / CreateTemp in this function
+				if o := core.ObjOf(info, as.Rhs[0]); o != nil {
+					for _, a := range core.Assigns(info, fd.Body)[o] {
+						if a.Call != nil && core.IsCallTo(info, a.Call, "io/ioutil.TempFile", "os.CreateTemp") && a.Idx == 0 {
+							return 1, false
+						}
+					}
+				}
+				return 0, false
+			}
+			return s, false
+		},
+		Edge: func(s int, cond ast.Expr, taken bool) int {
+			core.Facts(cond, taken, func(atom ast.Expr, val bool) {
+				c, ok := ast.Unparen(atom).(*ast.CallExpr)
+				if !ok || len(c.Args) != 1 || !fieldSel(info, c.Args[0], d, "infile") {
+					return
+				}
+				if fn := core.Callee(info, c); fn != nil && probes[fn] && val {
+					s = 1
+				}
+			})
+			return s
+		},
+	})
+	if violated {
+		r.Bad("KEY-12", fn+"|hash", p.Pos(copyIn.Pos()), "a path reaches the hashing copy with an input that may not be rewindable: a FIFO or pipe given as the input file is read to its end by the hashing and the seek back to the start fails (TryCache on a FIFO holding \">x\\nACGT\\n\" returns `seek ...: illegal seek`, the command exits 1; with --no-cache it streams the FIFO and succeeds)")
+	} else {
+		r.Ok("KEY-12", fn+"|hash", p.Pos(copyIn.Pos()), "only the temporary copy or a file that passed the seekability probe is hashed")
+	}
+}
